@@ -467,3 +467,30 @@ Lemma chain_native_alias_refuted :
   gobservations (g_chain false) vf_chain [20%nat; 15%nat; 20%nat] = map (gspec (g_chain false) vf_chain) [20%nat; 15%nat; 20%nat].
 Proof. repeat split; vm_compute; discriminate. Qed.
 Local Close Scope Z_scope.
+
+(* ------------------------------------------------------------------ PART B inside PART D
+   In the graphs above curvature_reg_matrix is a node that builds a new array from curvature_matrix and regularization_matrix
+   and deletes the curvature_matrix entry; the code adds INTO the cached curvature matrix and deletes the entry (PART B, Model/C11.v
+   [istep]).  The two machines report the same values for every sequence of curvature_matrix / curvature_reg_matrix reads. *)
+Definition g_crm : graph :=
+  [ cached [];                         (* 0: curvature_matrix *)
+    cached [];                         (* 1: regularization_matrix *)
+    mkG GCached [0; 1]%nat MFresh [0%nat] ].   (* 2: curvature_reg_matrix *)
+Definition vf_crm (add : adder) (F H : arr) : vfn := fun n vs =>
+  match n with
+  | 0%nat => F
+  | 1%nat => H
+  | _ => add (nth 0 vs []) (nth 1 vs [])
+  end.
+Definition node_of_iq (q : iq) : nat := match q with QF => 0%nat | _ => 2%nat end.
+Definition is_matrix_read (q : iq) : bool := match q with QF | QFR => true | _ => false end.
+
+Lemma partB_agrees_with_graph_node (add : adder) (F H D U : arr) (pre : ipre) (qs : list iq) :
+  forallb is_matrix_read qs = true ->
+  irun add ifaithful pre F H D U (ist0 F D) qs = gobservations g_crm (vf_crm add F H) (map node_of_iq qs).
+Proof.
+  intros Hq. rewrite inversion_reads_pure. rewrite graph_reads_pure by (vm_compute; reflexivity).
+  rewrite map_map. induction qs as [|q t IH]; [reflexivity|].
+  cbn [forallb] in Hq. apply andb_true_iff in Hq. destruct Hq as [Hq Ht]. cbn [map]. rewrite (IH Ht). f_equal.
+  destruct q; try discriminate; reflexivity.
+Qed.
